@@ -121,6 +121,37 @@ theorem canBeAccessedBy_iff (now : Nat) (m : PortMapping) (c : Nat) :
   rw [isValid_iff_usable]
   cases mappingUsable now m <;> cases m.ListenClientID == c <;> rfl
 
+theorem handleExistingBridge_attach (w : World) (req : Req) : (handleExistingBridge w req).attach ≠ .none := by
+  unfold handleExistingBridge
+  simp only
+  split
+  · split
+    · split <;> simp
+    · simp
+  · simp
+
+/-- The dispatcher is not vacuously safe: in every world, the authenticated target client of a usable mapping
+that presents the mapping's (non-empty) secret is acknowledged and attached to a waiting bridge of that mapping,
+and is forwarded when the tunnel waits on another node. -/
+theorem legit_target_served (w : World) (id : ConnIdent) (m : PortMapping) (tid : String) (sv : Bool) (n : String)
+    (hc : id.hasControl = true) (hid : id.clientID = m.TargetClientID) (hne : m.TargetClientID ≠ 0)
+    (hf : w.getPortMapping m.ID = some m) (hu : mappingUsable w.now m = true) (hs : m.SecretKey ≠ "")
+    (hn : n ≠ w.nodeID) :
+    (openTunnel w id ⟨true, m.ID, tid, m.SecretKey, ""⟩ (.bridge m.ID sv)).ack = .ok ∧
+    (openTunnel w id ⟨true, m.ID, tid, m.SecretKey, ""⟩ (.bridge m.ID sv)).attach ≠ .none ∧
+    openTunnel w id ⟨true, m.ID, tid, m.SecretKey, ""⟩ (.remote m.ID n) = ⟨.ok, .forward n, .switch⟩ := by
+  have hv := usable_isValid hu
+  have ha : handleTunnelOpenAuth w id.clientID ⟨true, m.ID, tid, m.SecretKey, ""⟩ = true := by
+    unfold handleTunnelOpenAuth
+    simp [hid, hne, hs, hf, hv, validateWithSecretKey]
+  have hb : openTunnel w id ⟨true, m.ID, tid, m.SecretKey, ""⟩ (.bridge m.ID sv)
+      = handleExistingBridge w ⟨true, m.ID, tid, m.SecretKey, ""⟩ := by
+    simp [openTunnel, findControlConnection, hc, ha]
+  refine ⟨?_, ?_, ?_⟩
+  · rw [hb]; rfl
+  · rw [hb]; exact handleExistingBridge_attach w _
+  · simp [openTunnel, findControlConnection, hc, ha, processCrossNodeForward, hn]
+
 /-! ## T2: the order of effectful steps in the source is the one the model assumes -/
 
 /-- `handleTunnelOpen`: control-connection lookup and `HandleTunnelOpen` come BEFORE the bridge lookup, the
